@@ -118,6 +118,7 @@ def main(argv=None):
     tier = os.environ.get("VERIF_TIER", "quick")
     replay_path = None
     only = None
+    record = False
     i = 1
     while i < len(argv):
         if argv[i] == "--tier":
@@ -126,6 +127,9 @@ def main(argv=None):
         elif argv[i] == "--replay":
             replay_path = argv[i + 1]
             i += 2
+        elif argv[i] == "--record-baseline":
+            record = True
+            i += 1
         elif argv[i] == "--only":
             only = argv[i + 1]
             i += 2
@@ -150,7 +154,11 @@ def main(argv=None):
         with ctx.Pool(nproc) as pool:
             results = pool.map(run_unit, jobs, chunksize=1)
     from pyvc import report
-    return report.finish(prop, tier, seed, results, reg, table, time.time() - t0, timeout_ms)
+    status = report.finish(prop, tier, seed, results, reg, table, time.time() - t0, timeout_ms)
+    if record and status == 0:
+        report.record_baseline(prop, results)
+        print("baseline recorded for %s" % prop)
+    return status
 
 
 if __name__ == "__main__":
